@@ -357,6 +357,12 @@ void runCombo(const Ctx& X, int mode, int opt) {
                 saturation_operation* sat2 = SATURATION_FORWARD(Fq, rel2, Fq);
                 sat2->compute(iq, rq);
                 f12 = tableOf(*X.D, rq) == tableOf(*X.D, (*X.bfs)[j]);
+                // F12 can only LOSE states (a level that is never saturated): a result with a state that is not
+                // reachable is a different defect, whatever the quasi-reduced twin says
+                if (f12) {
+                    std::vector<Val> got = tableOf(*X.D, R), want = tableOf(*X.D, (*X.bfs)[j]);
+                    for (size_t q = 0; q < got.size(); q++) if (got[q].n && !want[q].n) { f12 = false; STATS.hit("mismatch.extra-states-not-f12"); break; }
+                }
                 delete static_cast<operation*>(sat2);
             }
             forest::destroy(Fq);
